@@ -344,3 +344,60 @@ def reset():
     _cache.clear()
     _direct.clear()
     _fanin = None
+
+
+_infra = None
+
+
+def infra():
+    """constants of the INFRASTRUCTURE modules (container reader, parser, formatter, record decoder - not the decoder
+    tables): 'bytes' literals / module-level bytes (markers a reader may look for inside the data) and 'sizes' (integers
+    >= 64 that may be a block size, a bound on a table or on a window): used as input SHAPES - record heads, filler and
+    padding lengths, numbers of threads, window lengths"""
+    global _infra
+    if _infra is not None:
+        return _infra
+    import importlib
+    import operator
+    bts, sizes = set(), set()
+    ops = {ast.LShift: operator.lshift, ast.Mult: operator.mul, ast.Add: operator.add, ast.Sub: operator.sub, ast.Pow: operator.pow}
+
+    def fold(node):
+        if isinstance(node, ast.Constant) and _is_int(node.value):
+            return node.value
+        if isinstance(node, ast.BinOp) and type(node.op) in ops:
+            a, b = fold(node.left), fold(node.right)
+            if a is not None and b is not None and abs(a) < (1 << 40) and abs(b) < 64 or (a is not None and b is not None and type(node.op) in (ast.Add, ast.Sub, ast.Mult) and abs(a) < (1 << 40) and abs(b) < (1 << 40)):
+                try:
+                    return ops[type(node.op)](a, b)
+                except Exception:
+                    return None
+        return None
+    for modname in ('kevent', 'kd_buf_parser', 'traces_parser', 'pykdebugparser', 'callstacks_parser', 'os_log_event',
+                    'trace_codes', '__main__', 'trace_handlers.trace', 'trace_handlers.fsystem'):
+        try:
+            mod = importlib.import_module('pykdebugparser.' + modname)
+            tree = ast.parse(inspect.getsource(mod))
+        except Exception:
+            continue
+        for v in vars(mod).values():
+            if isinstance(v, (bytes, bytearray)) and 2 <= len(v) <= 16:
+                bts.add(bytes(v))
+            elif _is_int(v):
+                sizes.add(int(v))
+        for node in ast.walk(tree):
+            if isinstance(node, ast.Constant) and isinstance(node.value, bytes) and 2 <= len(node.value) <= 16:
+                bts.add(node.value)
+            v = fold(node) if isinstance(node, (ast.Constant, ast.BinOp)) else None
+            if v is not None:
+                sizes.add(v)
+    _infra = {'bytes': sorted(bts), 'sizes': sorted(v for v in sizes if 64 <= v <= (1 << 22))}
+    return _infra
+
+
+SIZE_CAP = 70000          # quick tier; the thorough tier raises it (common.run_check)
+
+
+def size_hints(lo=64):
+    """size-like constants of the infrastructure modules within the tier's cap (see infra())"""
+    return [v for v in infra()['sizes'] if lo <= v <= SIZE_CAP]
